@@ -24,13 +24,31 @@ func init() {
 
 // loadReal loads the sources with the real loader (prelude prepended by the library).
 func loadReal(sources []*ast.Source) (l ALoaded, schema *ast.Schema, crash string) {
+	return loadRealAt(sources, 0)
+}
+
+// loadRealAt: preludePos 0 = gqlparser.LoadSchema (the library puts the built-in prelude first);
+// 1 / 2 = validator.LoadSchema with the prelude as the last / a middle source: where the built-in
+// source stands among the sources is one more way of splitting and ordering the same definitions
+func loadRealAt(sources []*ast.Source, preludePos int) (l ALoaded, schema *ast.Schema, crash string) {
 	defer guard("gqlparser.LoadSchema", describeSources(sources))()
 	defer func() {
 		if r := recover(); r != nil {
 			crash = fmt.Sprintf("panic: %v", r)
 		}
 	}()
-	s, err := gqlparser.LoadSchema(sources...)
+	var s *ast.Schema
+	var err error
+	switch preludePos {
+	case 0:
+		s, err = gqlparser.LoadSchema(sources...)
+	case 1:
+		s, err = validator.LoadSchema(append(append([]*ast.Source{}, sources...), validator.Prelude)...)
+	default:
+		k := len(sources) / 2
+		all := append(append(append([]*ast.Source{}, sources[:k]...), validator.Prelude), sources[k:]...)
+		s, err = validator.LoadSchema(all...)
+	}
 	if err != nil {
 		l = ALoaded{Types: []string{}, Dirs: []string{}, Possible: []ARel{}, Implements: []ARel{}, Q: []string{}, M: []string{}, S: []string{}, Files: []string{}}
 		l.Err = err.Error()
@@ -200,6 +218,15 @@ func checkTypeSystem(c *core.Ctx, orderProp bool) {
 		for p := 0; p < nperm && (doc != nil || handItems != nil); p++ {
 			variants = append(variants, permuteItems(items, rng, inv))
 		}
+		// a built-in type that is involved has its base definition in the prelude: naming that file is right too
+		for _, n := range inv {
+			if strings.HasPrefix(n, "__") || n == "Int" || n == "Float" || n == "String" || n == "Boolean" || n == "ID" {
+				for vi := range variants {
+					variants[vi].Files = append(variants[vi].Files, "prelude.graphql")
+				}
+				break
+			}
+		}
 		spec, ok := parseForSpec(v0.Sources)
 		if !ok {
 			// the renderer produced something the parser refuses: not a type-system question
@@ -208,7 +235,11 @@ func checkTypeSystem(c *core.Ctx, orderProp bool) {
 		}
 		inf := &info{sdl: base.String(), fault: fault, variants: variants}
 		for vi, v := range variants {
-			l, _, crash := loadReal(v.Sources)
+			pp := 0
+			if orderProp {
+				pp = vi % 3
+			}
+			l, _, crash := loadRealAt(v.Sources, pp)
 			if crash != "" {
 				c.Violation(fmt.Sprintf("LoadSchema crashed: %s on %s", crash, describeSources(v.Sources)), map[string]any{"sources": sourcesJSON(v.Sources), "crash": crash})
 				return
